@@ -38,6 +38,7 @@ CallFailed(o) ==
   LET n == Norm(o) IN
   IF o.op = "legacy"          \* the older driver has its own contract (clauses L_xxx, outside the listed properties)
   THEN C!FailedLegacy(n) \cup (IF o.raised = "" THEN {} ELSE {"L_raised"})
+       \cup (IF C18_cells(o) THEN {} ELSE {"C18_cells"})      \* "a solve uses the minimum over cells as its global step": this one too
   ELSE
      C!FailedC07(n)
      \cup (IF C!C08_monitors(n) THEN {} ELSE {"C08_monitors"})
